@@ -9,6 +9,7 @@ import Parmcb.Model.Iso
 import Parmcb.Model.TreeCheck
 import Parmcb.Model.Cert
 import Parmcb.Model.TreesAlgo
+import Parmcb.Model.HeapAlgo
 import Parmcb.Driver.Proto
 /-! correspondence handlers for the graph algorithms (C16, C13, C01/C02 …) -/
 namespace Parmcb.Driver
@@ -263,6 +264,25 @@ def replayTrees (id : String) (gI : Graph) (var : String) (dim : Nat) (rest : Li
   if r.weight != ret then return some s!"diff {id} literal-trees-loop weight model={r.weight} impl={ret}"
   return none
 
+/-- **literal replay of `mcb_sva_signed`** (`Model/HeapAlgo.lean`: every search on two literal 4-ary heaps) on the graph in
+ForestIndex coordinates.  The only input besides the graph is, per phase of the hidden-edge branch, the iteration order of
+the `std::set` of signed edges, read off the first reported search of that phase (its hidden set is the whole set, in set
+order).  The model must emit EXACTLY the cycles the C++ emitted, phase by phase, and the same total. -/
+def replaySigned (id : String) (gI : Graph) (rev : List Nat) (dim : Nat) (evs : List SearchEv) (cycI : List (List Nat)) (ret : Int) :
+    Option String := Id.run do
+  let sigma := fun (k : Nat) (S : List Nat) =>
+    match evs.find? (fun e => e.phase == k && e.hiddenBranch) with
+    | some e => e.hidden
+    | none => S
+  let r := mcbSignedCore .signed dim (unitSupports dim) (fun k S => signedPhaseSearchH gI rev (sigma k S) S)
+  let mut k := 0
+  for (a, b) in r.cycles.zip cycI do
+    if a != b then return some s!"diff {id} literal-signed-loop phase {k} model=[{showNats a}] impl=[{showNats b}]"
+    k := k + 1
+  if r.cycles.length != cycI.length then return some s!"diff {id} literal-signed-loop phases model={r.cycles.length} impl={cycI.length}"
+  if r.weight != ret then return some s!"diff {id} literal-signed-loop weight model={r.weight} impl={ret}"
+  return none
+
 /-- C01/C02: the implementation's cycles are replayed through the literal support bookkeeping -/
 def handleExact (c : Case) : String := Id.run do
   match parseGraph c.body with
@@ -297,6 +317,10 @@ def handleExact (c : Case) : String := Id.run do
         let mut lit := 0
         if (var == "fvs" || var == "iso") && (findLine "nsc" rest).isSome then
           match replayTrees c.id gI var dim rest cycI ret with
+          | some d => return d
+          | none => lit := 1
+        if var == "signed" && (!evs.isEmpty || dim == 0) then
+          match replaySigned c.id gI rev dim evs cycI ret with
           | some d => return d
           | none => lit := 1
         return s!"ok {c.id} {g.n} {g.m} {dim} {total} {bA} {bH} {if brute then 1 else 0} {evs.length} {lit}"
